@@ -468,3 +468,35 @@ class Interp:
                 return all(self.matches(x, y, env) for x, y in zip(p['pats'], v[2]))
             return False
         raise Unanalysable(f'pattern `{k}` in evaluation')
+
+
+def truth_table(ev, expr, atom_of, nvars=None):
+    """Tabulate a boolean expression over the atoms recognised by `atom_of(node) -> name | None`
+    (each atom becomes a boolean variable).  Returns (sorted atom names, {assignment tuple: bool})."""
+    import copy
+    import itertools
+    e = copy.deepcopy(expr)
+    names = []
+
+    def rec(n):
+        if isinstance(n, dict):
+            a = atom_of(n)
+            if a is not None:
+                if a not in names:
+                    names.append(a)
+                n.clear()
+                n.update({'k': 'path', 'res': 'Local', 'path': a})
+                return
+            for v in list(n.values()):
+                rec(v)
+        elif isinstance(n, list):
+            for v in n:
+                rec(v)
+    rec(e)
+    names.sort()
+    interp = Interp(ev)
+    table = {}
+    for vals in itertools.product((False, True), repeat=len(names)):
+        env = dict(zip(names, vals))
+        table[vals] = bool(interp.run(e, env))
+    return names, table
